@@ -106,6 +106,53 @@ def codec_oracle(docs):
     return out
 
 
+def handle_state_oracle(docs):
+    """an open text file is read through the handle, from where it stands: what .read() returns is the source, for a handle
+    that cannot seek (a pipe) and for one the caller has already read a header from"""
+    import os, tempfile
+    from pydbml import PyDBML
+    out = []
+
+    def snap(f):
+        try:
+            d = f()
+            return ('ok', docgen.content(d), d.dbml)
+        except Exception as e:   # noqa
+            return ('raise', pyscript.exc_name(e))
+    for text, allow in docs:
+        raw = text.encode('utf8')
+        if len(raw) > 30000:
+            continue
+        base = snap(lambda: PyDBML(text, allow_properties=allow))
+        results = []
+        for how in ('PyDBML', 'parse_file'):
+            if how == 'parse_file' and allow:
+                continue
+            rd, wr = os.pipe()
+            os.write(wr, raw)
+            os.close(wr)
+            with os.fdopen(rd, 'r', encoding='utf8', newline='') as fh:
+                results.append(('%s(text stream on a pipe, not seekable)' % how,
+                                snap((lambda: PyDBML(fh, allow_properties=allow)) if how == 'PyDBML' else (lambda: PyDBML.parse_file(fh)))))
+            fd, path = tempfile.mkstemp(suffix='.dbml', dir='/var/tmp')
+            try:
+                with os.fdopen(fd, 'wb') as fh:
+                    fh.write(b'// header line the caller reads first\n' + raw)
+                with open(path, encoding='utf8', newline='') as fh:
+                    fh.readline()
+                    results.append(('%s(open file after the caller read its first line)' % how,
+                                    snap((lambda: PyDBML(fh, allow_properties=allow)) if how == 'PyDBML' else (lambda: PyDBML.parse_file(fh)))))
+            finally:
+                os.unlink(path)
+        for name, got in results:
+            if got != base:
+                out.append({'cause': 'oracle', 'clause': 'PyDBML(str) and %s give different results' % name,
+                            'detail': '%s vs %s' % (str(base)[:200], str(got)[:200]),
+                            'input': {'kind': 'document', 'text_hex': hexs(text), 'text': text}})
+                return out
+    return out
+
+
 def run(v, tier, st, pr):
     r = rng('c12')
     n = 40 if tier == 'quick' else 1500
@@ -171,6 +218,7 @@ def run(v, tier, st, pr):
     fails += other_types_oracle()
     # an open text file is read through the handle: whatever codec the caller opened it with
     fails += codec_oracle(docs[:12] + [('Table "café" {\n  "naïve" int [note: \'é ü ñ\']\n}\n', False)])
+    fails += handle_state_oracle(docs[:20] + [('Table t {\n  id int\n}\n', False)])
     fails.sort(key=lambda f: len(f['input'].get('text', '')))
     total = verdicts.conclude(v, pr, st, {'entry': stream_script.strip(res)}, fails)
     v.coverage['evaluations'] = total
